@@ -80,6 +80,14 @@ func judgeDuo(c duo.Case) *pbt.Verdict {
 	if r.Panic != "" {
 		return v.Failf("panic: %s", r.Panic)
 	}
+	// known finding of C06: a re-sent request that arrives while the earlier response's task is still active
+	// replaces the table entry (state queued) while the old task stays active
+	for i := range c.Reqs {
+		if run.Known("C06-rerequest-while-earlier-task-active") && r.RerequestWhileActive[i] {
+			v.Excluded = "C06-rerequest-while-earlier-task-active"
+			return v
+		}
+	}
 	mixed, several, queued := false, false, false
 	for k, s := range r.Snapshots {
 		idle, busy := 0, 0
@@ -173,8 +181,8 @@ var defResp = pbt.Def[resplife.Case]{Name: "responder-state-vs-queue-under-fault
 
 func TestProp(t *testing.T) {
 	outerT = t
-	pbt.Check(t, run, defDuo, 1500, 40000)
-	pbt.Check(t, run, defResp, 1500, 40000)
+	pbt.Check(t, run, defDuo, 4000, 400000)
+	pbt.Check(t, run, defResp, 4000, 400000)
 }
 
 func TestReplay(t *testing.T) {
